@@ -82,6 +82,8 @@ def runSer (j c : Json) : Except String Json := do
 
 def runCase (j : Json) : Except String Json := do
   let c ← j.getObjVal? "case"
+  -- floats: how Rust prints an f32 / f64 is not modelled; the round trip of such values is judged on the implementation alone
+  if let .ok (.bool true) := c.getObjVal? "nomodel" then return Json.mkObj [("id", j.getObjValD "id"), ("model", Json.mkObj [("nomodel", true)])]
   if let .ok q := c.getObjVal? "query" then
     let ps := Http.queryPairs (fromHex (← q.getStr?))
     return Json.mkObj [("id", j.getObjValD "id"), ("model", Json.mkObj [("pairs", Json.arr (ps.map fun kv => Json.arr #[toHex kv.1, toHex kv.2]).toArray)])]
